@@ -1,7 +1,9 @@
 //@ crate: grin_core
 //@ target: core/src/core/transaction.rs
 //@ assume: decided here: the overage operand Transaction::validate hands to verify_kernel_sums is exactly the sum of the 40-bit fee fields of the fee-carrying kernels (coinbase kernels contribute nothing), for every combination of kernel variants and fee values; bounded to <= 3 kernels (the fold is unrolled), every fee field value symbolic
-//@ harness c01_tx_overage_is_fee_sum kind=bounded tier=quick fns=TransactionBody::overage,Transaction::overage,TransactionBody::fee,FeeFields::fee bound=<=3_kernels,_all_u64_fee_fields,_all_variants
+//@ repeat N in 0..=3
+//@ harness c01_tx_overage_is_fee_sum_{N} kind=bounded tier=quick fns=TransactionBody::overage,Transaction::overage,TransactionBody::fee,FeeFields::fee bound={N}_kernels,_all_u64_fee_fields,_all_variants
+//@ end
 use crate::verif_kani_support::*;
 
 fn c01_any_kernel() -> TxKernel {
@@ -25,26 +27,29 @@ fn c01_fee_of(k: &TxKernel) -> u64 {
 }
 
 /// Transaction::overage == sum of kernel fees (each 40 bits), as the i64 that verify_kernel_sums receives.
-#[kani::proof]
-#[kani::unwind(5)]
-#[kani::stub(alloc::fmt::format, stub_format)]
-fn c01_tx_overage_is_fee_sum() {
-	let ks = [c01_any_kernel(), c01_any_kernel(), c01_any_kernel()];
-	let n: usize = kani::any();
-	kani::assume(n <= 3);
-	let mut body = TransactionBody::empty();
-	let mut sum: u64 = 0;
-	let mut i = 0;
-	while i < 3 {
-		if i < n {
-			body.kernels.push(ks[i]);
-			sum += c01_fee_of(&ks[i]);
+macro_rules! tx_overage {
+	($name:ident, $n:expr) => {
+		#[kani::proof]
+		#[kani::unwind(5)]
+		#[kani::stub(alloc::fmt::format, stub_format)]
+		fn $name() {
+			let ks = [c01_any_kernel(), c01_any_kernel(), c01_any_kernel()];
+			let mut body = TransactionBody::empty();
+			body.kernels = ks[..$n].to_vec();
+			let mut sum: u64 = 0;
+			let mut i = 0;
+			while i < $n {
+				sum += c01_fee_of(&ks[i]);
+				i += 1;
+			}
+			assert!(body.fee() == sum, "C01: body fee is the sum of the kernels' fees");
+			let tx = Transaction { offset: unsafe { core::mem::zeroed::<BlindingFactor>() }, body };
+			assert!(tx.overage() == sum as i64 && tx.overage() >= 0, "C01: the overage of a transaction is the sum of its kernels' fees");
+			assert!(tx.fee() == sum);
+			core::mem::forget(tx); // BlindingFactor zeroizes on drop with inline asm, which Kani cannot model
 		}
-		i += 1;
-	}
-	assert!(body.fee() == sum, "C01: body fee is the sum of the kernels' fees");
-	let tx = Transaction { offset: unsafe { core::mem::zeroed::<BlindingFactor>() }, body };
-	assert!(tx.overage() == sum as i64 && tx.overage() >= 0, "C01: the overage of a transaction is the sum of its kernels' fees");
-	assert!(tx.fee() == sum);
-	core::mem::forget(tx); // BlindingFactor zeroizes on drop with inline asm, which Kani cannot model
+	};
 }
+//@ repeat N in 0..=3
+tx_overage!(c01_tx_overage_is_fee_sum_{N}, {N});
+//@ end
